@@ -20,7 +20,7 @@ CLAIMED = {
             "EnvOK is discharged for the groups of the layout-based reader (concrete_read_valid / cache_transparent_for_every_image / concrete_env_ok, bridge_total, through the bridge model tied by H9 + H11) up to the json and float-repr contracts and instants >= 1970; non-local filesystems are a recorded known finding", "7 C07"),
     "C08": ("Lean theorem decode_encode: decodeDoc r (encodeDoc g) = g.withRpc r for every group in a decidable codec domain (structural induction; incl. calendar/text round trip of datetime references), reader_group_round_trip / reader_group_cacheable (every group the layout-based reader builds from an image file with >= 1 line record lies in that domain and round-trips), tuple_tag, document_is_json; text-exact correspondence with caching.encode/decode on generated hierarchies and on the groups the reader builds from synthesised image files (bridge, H11)",
             "json float/int round trip and ndarray.tolist/np.array are contracts; zero-size rank>=2 arrays are a recorded known finding", "7 C08"),
-    "C09": ("Lean theorems prefix_not_json (no proper non-empty prefix of a dumped JSON container is balanced), open_after_crash (every state of arbitrary prefixes at both locations), repair; every-prefix oracle on real documents, SIGKILL runs in the thorough tier",
+    "C09": ("Lean theorems prefix_not_json (no proper non-empty prefix of a dumped JSON container is balanced), open_after_crash (every state of arbitrary prefixes at both locations), concrete_open_after_crash (the same for the concrete environment of every image file that opens: no assumption about the groups), repair; every-prefix oracle on real documents, SIGKILL runs in the thorough tier",
             "that an interrupted write leaves a prefix is OS behaviour (sampled); json.loads rejecting unbalanced text is a contract (tested on every prefix)", "7 C09"),
     "C10": ("Lean theorem history_independent: for every operation sequence (induction, no length bound) every open returns the uncached group of its own rpc; inv_step; writes; real-file histories vs the flow model and vs fresh uncached opens, directory hashes, option-dict deep copies",
             "caller-dict aliasing is only observed by the harness", "7 C10"),
@@ -28,7 +28,7 @@ CLAIMED = {
             "numpy dtype inference / datetime64 override and IEEE scaling are third-party (scaling checked exactly by the harness)", "7 C03"),
     "C04": ("Lean theorem metadata: for EVERY leader file that parses, transform_metadata (record selection, the seven record pipelines, renames, attitude time fix-up) yields the frozen documented /metadata tree evaluated on the parsed record (any number of map-projection records, any attitude/facility lengths, any number n>=1 of attitude points and 1..16 channels); per-record theorems dataset_summary / radiometric_data / transformations / platform_position / map_projection (per designator class) / attitude (all n) / data_quality_summary; field_positions (golden offsets/widths/conversions of the fixed-size records), framing, numeric_text; layouts, pipeline configuration and step order regenerated from source; transformer correspondence (11 pipelines incl. whole leaders); field-by-field end-to-end oracle",
             "float()/IEEE scaling, strptime/timedelta of the first-point time and numpy timedelta arithmetic are contracts (evaluated exactly by the harness)", "7 C04"),
-    "C12": ("Lean theorems documented_trees_well_typed / image_group_well_typed (any n) / metadata_well_typed + leader_trees_well_typed (the whole documented /metadata tree, any counts and designator class) / typing_is_shape_only, declared_shape (from pixel_fidelity), real_dtypes (re-read from source); oracle over dtype/shape/nbytes/repr/attribute types/selection shapes",
+    "C12": ("Lean theorems image_group_numpy_typed (every image file that opens: each member of the image group is the lazy pixel array or a 1-d non-empty NumPy array of a real dtype with declared shape = element count; bridge_total + bridged_members_typed, NumPy dtype inference modelled and tied by H11) / documented_trees_well_typed / image_group_well_typed (any n) / metadata_well_typed + leader_trees_well_typed (the whole documented /metadata tree, any counts and designator class) / typing_is_shape_only, declared_shape (from pixel_fidelity), real_dtypes (re-read from source); oracle over dtype/shape/nbytes/repr/attribute types/selection shapes",
             "numpy's dtype inference of python lists is third-party", "7 C12"),
     "C13": ("Lean theorems imagery_children (no image dropped or swapped when names are distinct), name_collision, group_names_injective, roles_independent_of_line_order (permutation invariance), metadata_children (for every leader file: /metadata has exactly the record groups present in the leader, map_projection iff the file holds such a record), product_tree (model of the whole io.open: every successful open is assembled from exactly the documented pieces - summary, root attributes, /metadata, one image group per image file in summary order), coordinates_promoted (name-level model of to_dataset / decode_coords, tied by correspondence), root_children; whole-product correspondence (intact and damaged products) against the real io.open; oracle over 1-8 images x polarisation x scan x summary line order, uncached and through a freshly created cache: node paths and order, per-group pixel identity with the right file, attributes",
             "DataTree.from_dict / set_coords are xarray's", "7 C13"),
@@ -44,7 +44,7 @@ CLAIMED = {
             "real schedules / GIL / lock implementation only enumerated at filesystem yield points", "7 C19"),
     "C20": ("Lean theorems blank_int/float/text, no_derived_attribute, padding_inert + padding_inert_leader_records (dataset summary, radiometric, facility-5, platform-position, map-projection records: records agreeing on live-field bytes give equal output), padding_inert_counted_records (attitude, data quality: only the count and the entries present matter; unused slots, trailing blanks, preamble are inert), padding_inert_volume_directory (file-pointer records are inert), live_fields_only(2), field_locality (13 fixed-size layouts), padding_inert_line_records (any number of line records of either kind) and padding_inert_image_file (whole image files through the layout-based reader, every records_per_chunk); oracle: nullable fields blanked individually and in subsets, padding rewritten with random content; byte influence map (changed output leaves per changed input byte vs the layout + provenance prediction; quick: sampled positions, thorough: every position of two products)",
             "bool(-1)=True for blank flag columns is exempt by the property's wording; the influence map is an oracle (a search), the theorems carry the universal claim", "7 C20"),
-    "C18": ("Lean theorems records_within_file / cut_file_never_complete (layout-based reader: returned records lie inside the file, a cut file never yields its declared number of records, for every records_per_chunk), truncated_image (addressing model, arbitrary bytes: short file => error or fewer than n records), complete_image, missing_summary; whole-product correspondence on damaged products (error classes of truncated / removed / corrupted files); truncation/missing-file oracle over every record boundary +-1 x rpc",
+    "C18": ("Lean theorems missing_files (whole-product model: summary error, then volume directory / leader / image files in order, first missing one is FileNotFoundError) / trailer_never_read / records_within_file / cut_file_never_complete (layout-based reader: returned records lie inside the file, a cut file never yields its declared number of records, for every records_per_chunk), truncated_image (addressing model, arbitrary bytes: short file => error or fewer than n records), complete_image, missing_summary; whole-product correspondence on damaged products (error classes of truncated / removed / corrupted files); truncation/missing-file oracle over every record boundary +-1 x rpc",
             "xarray.Dataset's dimension check and promptness are not proved (measured)", "7 C18"),
 }
 
